@@ -355,4 +355,180 @@ theorem min_partition {α : Type} (n : Nat) (l : List α) (key : α → Nat) (f 
     have := minOver_le (xs.map f)
     omega
 
+
+/-! ### a payload-generic read theorem for additive measures -/
+
+theorem inWin_iff' (g : Geo) (W now s : Nat) : inWin g W now s = true ↔
+    (¬ (now > s ∧ now - s > g.interval)) ∧ g.start now - W + g.L ≤ s ∧ s ≤ g.start now := by
+  simp [inWin, deprecated]
+  omega
+
+section GenericRead
+variable {β ε : Type}
+
+theorem measure_bucketVal (app : β → ε → β) (zero : β) (g : Geo) (m : β → Nat) (w : ε → Nat)
+    (hm0 : m zero = 0) (hmapp : ∀ b e, m (app b e) = m b + w e) (evs : List (Nat × ε)) (b : Nat) :
+    m (bucketVal app zero g evs b) = ((evs.filter (fun e => g.start e.1 = b)).map (fun e => w e.2)).sum := by
+  unfold bucketVal
+  induction evs.filter (fun e => g.start e.1 = b) with
+  | nil => simp [hm0]
+  | cons e l ih => simp only [List.foldr_cons, List.map_cons, List.sum_cons, hmapp, ih]; omega
+
+/-- for a ring in the invariant, the loop "sum `m` over the slots whose stamp lies in the window of width `W` ending now"
+returns the sum of the weights `w` of exactly the events whose bucket lies in that window (window still resident) -/
+theorem ring_window_sum (app : β → ε → β) (zero : β) (g : Geo) (hn : 0 < g.n) (hL : 0 < g.L)
+    (r : List (Slot β)) (evs : List (Nat × ε)) (tl : Nat) (m : β → Nat) (w : ε → Nat)
+    (hm0 : m zero = 0) (hmapp : ∀ b e, m (app b e) = m b + w e)
+    (hinv : RingInv app zero g r evs tl) (W now : Nat)
+    (hWn : W ≤ g.interval) (hguard : W ≤ g.start now)
+    (hres : g.start tl < (g.start now - W + g.L) + g.interval) :
+    (List.range g.n).foldl (fun acc i => if inWin g W now (slotAt zero r i).stamp then acc + m (slotAt zero r i).val else acc) 0
+      = ((evs.filter (fun e => g.start now - W + g.L ≤ g.start e.1 && g.start e.1 ≤ g.start now)).map (fun e => w e.2)).sum := by
+  have hfold := foldl_cond_add (List.range g.n)
+    (fun i => inWin g W now (slotAt zero r i).stamp) (fun i => m (slotAt zero r i).val) 0
+  try simp only [] at hfold ⊢
+  rw [hfold, Nat.zero_add]
+  have hnowL := g.lt_start_add hL now
+  have hnowhi := g.start_le now
+  rw [sum_partition g.n _ (fun e : Nat × ε => g.idx e.1) (fun e : Nat × ε => w e.2) (by intro x _; exact g.idx_lt hn _)]
+  apply sum_map_congr
+  intro i hi'
+  have hi'' : i < g.n := List.mem_range.mp hi'
+  rw [List.filter_filter]
+  by_cases hw : inWin g W now (slotAt zero r i).stamp = true
+  · simp only [hw, if_true]
+    have hw' := (inWin_iff' g W now _).mp hw
+    have hne : (slotAt zero r i).stamp ≠ 0 := by omega
+    rw [hinv.val i hi'']; simp only [hne, if_false]
+    rw [measure_bucketVal app zero g m w hm0 hmapp]
+    have hs := hinv.slot i hi'' hne
+    congr 2
+    apply List.filter_congr
+    intro e he
+    have hnw := hinv.newest e he
+    by_cases hidx : g.idx e.1 = i
+    · subst hidx
+      simp only [decide_true, Bool.true_and]
+      by_cases heq : g.start e.1 = (slotAt zero r (g.idx e.1)).stamp
+      · have h1 := hw'.2.1; have h2 := hw'.2.2
+        rw [← heq] at h1 h2
+        simp [heq]
+        rw [← heq]; exact ⟨h1, h2⟩
+      · have hlt : g.start e.1 < (slotAt zero r (g.idx e.1)).stamp := by omega
+        have hgap := g.same_slot_gap (g.start_mod e.1) hs.1 (by rw [g.idx_start hL, hs.2.1]) hlt
+        simp only [heq, decide_false]
+        simp
+        intro h1
+        have := hw'.2.2
+        omega
+    · have : g.start e.1 ≠ (slotAt zero r i).stamp := by
+        intro heq; apply hidx; rw [← g.idx_start hL, heq, hs.2.1]
+      simp [hidx, this]
+  · rw [if_neg hw]
+    symm
+    apply sum_zero_of_all_zero
+    intro x hx
+    simp only [List.mem_map, List.mem_filter, Bool.and_eq_true, decide_eq_true_eq] at hx
+    obtain ⟨e, ⟨he, hidx, h1, h2⟩, rfl⟩ := hx
+    exfalso
+    have hnw := hinv.newest e he
+    rw [hidx] at hnw
+    have hne : (slotAt zero r i).stamp ≠ 0 := by omega
+    have hs := hinv.slot i hi'' hne
+    by_cases heq : g.start e.1 = (slotAt zero r i).stamp
+    · apply hw
+      rw [inWin_iff']
+      refine ⟨?_, by omega, by omega⟩
+      intro ⟨_, hd⟩
+      omega
+    · have hlt : g.start e.1 < (slotAt zero r i).stamp := by omega
+      have hgap := g.same_slot_gap (g.start_mod e.1) hs.1 (by rw [g.idx_start hL, hidx, hs.2.1]) hlt
+      have := hs.2.2
+      omega
+
+/-- right after a write at `now`, "valid" (`!is_deprecated`) slots are exactly those whose stamp lies in the last `n` buckets -/
+theorem validAt_iff_inWin_after_write (app : β → ε → β) (zero : β) (g : Geo) (hn : 0 < g.n) (hL : 0 < g.L)
+    (r : List (Slot β)) (evs : List (Nat × ε)) (now : Nat) (x : ε)
+    (hinv : RingInv app zero g r ((now, x) :: evs) now) (hguard : g.interval < g.start now) (i : Nat) (hi : i < g.n) :
+    validAt g now (slotAt zero r i).stamp = inWin g g.interval now (slotAt zero r i).stamp := by
+  have hnowL := g.lt_start_add hL now
+  have hnowhi := g.start_le now
+  have hnew0 := hinv.newest (now, x) List.mem_cons_self
+  have hnew : g.start now ≤ (slotAt zero r (g.idx now)).stamp := hnew0.2
+  have hpos : 0 < g.start now := hnew0.1
+  by_cases h0 : (slotAt zero r i).stamp = 0
+  · rw [h0]
+    have : validAt g now 0 = false := by simp [validAt, deprecated]; omega
+    have h2 : inWin g g.interval now 0 = false := by
+      cases hh : inWin g g.interval now 0 with
+      | false => rfl
+      | true => have := (inWin_iff' g g.interval now 0).mp hh; omega
+    rw [this, h2]
+  · have hs := hinv.slot i hi h0
+    have hsle : (slotAt zero r i).stamp ≤ g.start now := hs.2.2
+    cases hv : validAt g now (slotAt zero r i).stamp with
+    | false =>
+      symm
+      cases hh : inWin g g.interval now (slotAt zero r i).stamp with
+      | false => rfl
+      | true =>
+        have := (inWin_iff' g g.interval now _).mp hh
+        simp [validAt, deprecated] at hv
+        omega
+    | true =>
+      symm
+      apply (inWin_iff' g g.interval now _).mpr
+      have hv' : ¬ (now > (slotAt zero r i).stamp ∧ now - (slotAt zero r i).stamp > g.interval) := by
+        intro ⟨h1, h2⟩
+        simp [validAt, deprecated] at hv
+        omega
+      refine ⟨hv', ?_, hsle⟩
+      -- the stamp is a multiple of L, at least now - interval; the only candidate below the window is start now - interval,
+      -- which would share the slot of `now` — but that slot carries stamp `start now`
+      by_cases hlow : g.start now - g.interval + g.L ≤ (slotAt zero r i).stamp
+      · exact hlow
+      · exfalso
+        have hIL : g.L ≤ g.interval := by unfold Geo.interval; exact Nat.le_mul_of_pos_left _ hn
+        have hlt : (slotAt zero r i).stamp < g.start now := by omega
+        have hidx_now : g.idx (g.start now) = g.idx now := g.idx_start hL now
+        -- the slot of `now`
+        have hslot_now_ne : (slotAt zero r (g.idx now)).stamp ≠ 0 := by omega
+        have hsn := hinv.slot (g.idx now) (g.idx_lt hn now) hslot_now_ne
+        have hstamp_now : (slotAt zero r (g.idx now)).stamp = g.start now := by omega
+        by_cases hsame : i = g.idx now
+        · subst hsame; omega
+        · -- a different slot: its stamp s satisfies idx s = i ≠ idx now, s multiple of L, s ≥ now - interval, s < start now - interval + L
+          -- so s ≤ start now - interval; with s ≥ now - interval ≥ start now - interval: s = start now - interval, idx s = idx (start now): contradiction
+          have hge : g.start now - g.interval ≤ (slotAt zero r i).stamp := by omega
+          have hmodS := hs.1
+          have hmodN := g.start_mod now
+          have hdivI : g.interval % g.L = 0 := by unfold Geo.interval; exact Nat.mul_mod_left _ _
+          have heq : (slotAt zero r i).stamp = g.start now - g.interval := by
+            have h1 : ((slotAt zero r i).stamp - (g.start now - g.interval)) % g.L = 0 := by
+              have : (g.start now - g.interval) % g.L = 0 := by
+                have e1 : g.start now = g.L * (g.start now / g.L) := by have := Nat.mod_add_div (g.start now) g.L; omega
+                have e2 : g.interval = g.L * g.n := by unfold Geo.interval; exact Nat.mul_comm _ _
+                rw [e1, e2, ← Nat.mul_sub]; exact Nat.mul_mod_right _ _
+              exact Nat.sub_mod_eq_zero_of_mod_eq (by rw [hmodS, this])
+            have h2 : (slotAt zero r i).stamp - (g.start now - g.interval) < g.L := by omega
+            have := Nat.eq_zero_of_dvd_of_lt (Nat.dvd_of_mod_eq_zero h1) h2
+            omega
+          apply hsame
+          rw [← hs.2.1, heq]
+          unfold Geo.idx Geo.interval
+          have e1 : g.start now = g.L * (g.start now / g.L) := by have := Nat.mod_add_div (g.start now) g.L; omega
+          have hq : g.n ≤ g.start now / g.L := by
+            have : g.n * g.L < g.L * (g.start now / g.L) := by rw [← e1]; exact hguard
+            have : g.L * g.n < g.L * (g.start now / g.L) := by rw [Nat.mul_comm g.L g.n]; exact this
+            exact Nat.le_of_lt (Nat.lt_of_mul_lt_mul_left this)
+          have e3 : g.start now - g.n * g.L = g.L * (g.start now / g.L - g.n) := by
+            rw [Nat.mul_sub, ← e1, Nat.mul_comm g.L g.n]
+          rw [e3, Nat.mul_div_cancel_left _ hL]
+          have : (g.start now / g.L - g.n) % g.n = (g.start now / g.L) % g.n := by
+            conv => rhs; rw [show g.start now / g.L = (g.start now / g.L - g.n) + g.n by omega]
+            rw [Nat.add_mod_right]
+          rw [this, g.start_div hL]
+
+end GenericRead
+
 end Sentinel
